@@ -200,6 +200,14 @@ def run(ctx):
         for i, clause in bad[:3]:
             ctx.violation("fixture %s: real view operations rejected by TraceViews at '%s': %s" % (fx.name, clause, json.dumps(_ops(ok[i]))[:500]),
                           {"kind": "history", "fixture": fx.name, "ops": _ops(ok[i]), "clause": clause})
+        if ok and not bad and fi == 0:
+            from harness.tracecheck import selftest
+
+            def corrupt(t):
+                t["events"][-1]["pool"][0]["sel"] = t["events"][-1]["pool"][0]["sel"][:-1]
+                return "one row removed from the logged selection of the first (untouched) view"
+            selftest(ctx, "TraceViews", {"events": ok[0].events}, corrupt, decide=None, next_="TNext", init="TInit",
+                     constants={"MaxObjs": 99, "Export": False}, extra_files={"fixture.json": fjson})
         if ok:
             ctx.sample({"fixture": fx.name, "ops": _ops(ok[0])[:5]})
     missing = [a for a in ACTIONS if a not in seen]
